@@ -278,6 +278,41 @@ def tri(it: M.Interp, premise: Formula, conclusion: Formula) -> tuple[str, "dict
     return "undecided", None
 
 
+def unrelated_atoms(it: M.Interp, names_: set[str]) -> list[str]:
+    """Facts that have nothing to do with the external options: not canonical, not computed from FLAG / the patterns, understood
+    by the model (a level limit, a test on the number of components of a name ...).  They have the same value in every
+    configuration of the external options."""
+    return sorted(a for a in names_ if not is_canonical(a) and not (it.taint_of_atom(a) & {"FLAG", "EXT"}) and understood(it, a) and not any(a == f"ISNONE[{p}]" for p in it.ext_params))
+
+
+def kept_whenever_kept_elsewhere(it: M.Interp, k: Formula, premise: Formula) -> "list[str] | None":
+    """`premise -> k` up to filters that do not depend on the external options: for every value of the unrelated facts, an
+    element that satisfies `k` in SOME configuration satisfies it in EVERY configuration in which the premise holds.  Returns the
+    unrelated facts used (the obligation holds) or None (it does not hold / nothing unrelated is involved)."""
+    names_ = atoms_of(k) | atoms_of(premise)
+    cons = constraints(it, names_ | {"FLAG", "HAS"})
+    names_ |= atoms_of(cons)
+    free_ = unrelated_atoms(it, names_)
+    if not free_:
+        return None
+    hard = sorted(names_ - set(free_))
+    for env_u in M.assignments(free_):
+        somewhere = False
+        everywhere = True
+        for env_h in M.assignments(hard):
+            env = {**env_u, **env_h}
+            if not evaluate(cons, env):
+                continue
+            v = evaluate(k, env)
+            if v and env.get(f"INSCAN[{E}]", True):
+                somewhere = True
+            if not v and evaluate(premise, env):
+                everywhere = False
+        if somewhere and not everywhere:
+            return None
+    return free_
+
+
 _OPS = {"Eq", "NotEq", "Gt", "GtE", "Lt", "LtE", "Is", "IsNot", "In", "NotIn", "None", "True", "False", "Add", "Sub"}
 
 
@@ -645,6 +680,20 @@ def check_sink(repo: Repo, res: Result, it: M.Interp, s: M.Sink, walk_ok: "bool 
     scanned = lambda b: b.startswith("scanned:")  # noqa: E731
     # ---- things the model cannot speak about: no verdict on a description that is incomplete
     n_und = len(res.undecided)
+    # ---- R1 at the source: the scan itself is configured with the external patterns
+    for fi_, call in it.ext_scans:
+        res.add(
+            "C10.R1",
+            repo.key(fi_, stmt_of(call) or call) + f" [{norm(call, 70)}: scan filter <- external patterns]",
+            False,
+            f"`{norm(call, 70)}` in {fi_.qualname} builds the scanner with a pattern filter whose tests (`is_excluded` / `has_filter`) read configuration attributes that carry the external exclusion patterns "
+            "(followed attribute by attribute through the configuration object and the fields of the filter): files and directories of the scanned tree whose path matches an external pattern are never scanned, "
+            "so internal modules and the imports from and to them disappear when an external exclusion pattern is given",
+            where(fi_, call),
+            kind="flow",
+        )
+    if it.ext_scans:
+        return
     for c, what in ((imps, "import list"), (mods, "module list")):
         seen_rem = set()
         for p, _down in M.walk_parts(c):
@@ -737,7 +786,15 @@ def check_sink(repo: Repo, res: Result, it: M.Interp, s: M.Sink, walk_ok: "bool 
     verdict("C10.R4", sink_key + " [exclude mode: imports]", conj([k_imp_r, FLAG]), INT, "with externals excluded only imports accepted by the internal test remain", f"with externals excluded an import whose importee is not internal is retained: retention is `{show(k_imp_r)}`", sink_where)
     verdict("C10.R4", sink_key + " [include mode: matching externals dropped]", conj([k_imp_r, f_not(INT), f_not(FLAG)]), conj([f_not(EX), f_not(EXA)]), "an external import is dropped when its importee or one of its ancestors matches a pattern", f"an external import whose importee or one of whose ancestors matches an external exclusion pattern is retained (the patterns are not consulted for it): retention is `{show(k_imp_r)}`", sink_where, by_unrolling=True)
     verdict("C10.R4", sink_key + " [include mode: other externals kept]", conj([f_not(FLAG), f_not(EX), f_not(EXA)]), k_imp_r, "with externals included every import that matches no pattern (itself and its ancestors) is retained", f"with externals included an import that matches no external pattern is dropped: retention is `{show(k_imp_r)}`", sink_where, by_unrolling=True)
-    verdict("C10.R4", sink_key + " [exclude mode: modules]", conj([FLAG, INSCAN]), k_scan_r, "with externals excluded every scanned module is handed to the graph", f"with externals excluded a scanned module is not handed on: retention is `{show(k_scan_r)}`", sink_where)
+    # (a filter of the scanned modules that does not depend on the external options - a level limit - is not the business of
+    # C10: the internal modules must be the same in every configuration, so a scanned module that any configuration hands on
+    # must be handed on with externals excluded)
+    st_mod, _w = tri(it, conj([FLAG, INSCAN]), k_scan_r)
+    unrel = kept_whenever_kept_elsewhere(it, k_scan, conj([FLAG, INSCAN])) if st_mod != "ok" else None
+    if unrel:
+        res.add("C10.R4", sink_key + " [exclude mode: modules]", True, f"with externals excluded every scanned module that any configuration hands to the graph is handed on (the other conditions do not depend on the external options: {', '.join(unrel)})", sink_where, kind="decision-table")
+    else:
+        verdict("C10.R4", sink_key + " [exclude mode: modules]", conj([FLAG, INSCAN]), k_scan_r, "with externals excluded every scanned module is handed to the graph", f"with externals excluded a scanned module is not handed on: retention is `{show(k_scan_r)}`", sink_where)
 
     # ---- R3 / R4: what is appended to the module list
     adds = [(p, down) for p, down in M.walk_parts(mods_r) if p.kind == "adds"]
@@ -976,6 +1033,161 @@ def run_r2(repo: Repo, res: Result, it: M.Interp, internal: set[str], how: str) 
         res.add("C10.R2", f"{f.relpath}::{f.qualname}::complete prefixes", all(g for _f, _c, g, _t in zs), f"the internal test ({how}) contains no comparison of component lists truncated by zip ({len(zs)} zip comparison(s) of component lists inspected)", where(f, f.node), nontrivial=bool(zs), kind="structural")
 
 
+# --------------------------------------------------------------------------- R5: values shared through a memoised function
+
+
+MEMO_DECORATORS = {"lru_cache", "cache", "cached", "memoize", "memoized"}
+CONTAINER_MUTATORS = {
+    "append", "extend", "insert", "pop", "remove", "clear", "sort", "reverse", "add", "discard", "update", "setdefault", "popitem",
+    "difference_update", "intersection_update", "symmetric_difference_update", "appendleft", "extendleft", "popleft",
+    "__setitem__", "__delitem__", "__iadd__", "__ior__",
+}
+
+
+def memo_alias_mutations(repo: Repo, in_scope) -> tuple[list[FuncInfo], list[tuple[FuncInfo, FuncInfo, ast.AST]]]:
+    """(memoised functions, [(memoised function, mutating function, mutating node)]): in-place changes - in the functions selected
+    by `in_scope` - of a value that IS the result of a memoised function (an alias: through locals, fields, returns of repository
+    functions; copies and derived values are new objects).  The result of a memoised function is one object handed to every caller
+    of every scan: changing it changes what all later callers compute from it."""
+    from core.flow import Flow, Spec
+
+    memo = [f for f in repo.all_functions() if set(getattr(f, "decorators", ()) or ()) & MEMO_DECORATORS]
+    if not memo:
+        return [], []
+    T = types_of(repo)
+    by_fq = {f.fq: f for f in memo}
+
+    def sources(fi, e):
+        if isinstance(e, ast.Call):
+            try:
+                cs, _how = T.callees(fi, e, byname_fallback=False)
+            except Exception:  # noqa: BLE001
+                return None
+            tags = {"MEMO:" + c.fq for c in cs if c.fq in by_fq}
+            return tags or None
+        return None
+
+    def post(fi, e, tags):
+        mine = {t for t in tags if t.startswith("MEMO:")}
+        if not mine:
+            return tags
+        if isinstance(e, (ast.Name, ast.Attribute, ast.IfExp, ast.BoolOp, ast.NamedExpr, ast.Starred)):
+            return tags
+        if isinstance(e, ast.Call):
+            if sources(fi, e):
+                return tags
+            try:
+                cs, how = T.callees(fi, e, byname_fallback=False)
+            except Exception:  # noqa: BLE001
+                cs, how = [], ""
+            if cs and how == "repo":
+                return tags  # a repository function may return its argument / a field: the alias survives
+        return frozenset(tags) - mine
+
+    flow = Flow(repo, T, Spec(sources=sources, post=post, objects_carry=False, non_absorbed=frozenset("MEMO:" + fq for fq in by_fq)))
+    bad = []
+    for g in repo.all_functions():
+        if isinstance(g.node, ast.Lambda) or not in_scope(g):
+            continue
+        for n_ in own_nodes(g.node):
+            tgt = None
+            if isinstance(n_, ast.Call) and isinstance(n_.func, ast.Attribute) and n_.func.attr in CONTAINER_MUTATORS:
+                tgt = n_.func.value
+            elif isinstance(n_, ast.Subscript) and isinstance(n_.ctx, (ast.Store, ast.Del)):
+                tgt = n_.value
+            elif isinstance(n_, ast.AugAssign) and isinstance(n_.target, ast.Name):
+                tgt = ast.copy_location(ast.Name(id=n_.target.id, ctx=ast.Load()), n_.target)
+                # (`x += [..]` on a list is in place; on a str / int / tuple it rebinds: only containers can alias a memoised list)
+            if tgt is None:
+                continue
+            try:
+                tags = flow.tags(tgt) if not isinstance(n_, ast.AugAssign) else flow.tags(n_.target)
+            except Exception:  # noqa: BLE001
+                continue
+            for t in sorted(tags):
+                if t.startswith("MEMO:") and t[5:] in by_fq:
+                    bad.append((by_fq[t[5:]], g, n_))
+    return memo, bad
+
+
+MEMO_FIXTURE = {
+    "src/pytestarch/eval_structure/fx_types.py": '''
+from functools import lru_cache
+
+
+@lru_cache(maxsize=None)
+def parents(module: str) -> list[str]:
+    parts = module.split(".")
+    return [".".join(parts[:d]) for d in range(1, len(parts))]
+
+
+class Rec:
+    def __init__(self, name: str) -> None:
+        self._name = name
+        self._parents = parents(name)
+
+    def parent_modules(self) -> list[str]:
+        return self._parents
+''',
+    "src/pytestarch/eval_structure_generation/fx_calc.py": '''
+from pytestarch.eval_structure.fx_types import Rec
+
+
+def mutating(rec: Rec) -> list[str]:
+    names = rec.parent_modules()
+    names.append("x")
+    return names
+
+
+def copying(rec: Rec) -> list[str]:
+    names = list(rec.parent_modules())
+    names.append("x")
+    return names
+
+
+def fresh_set(rec: Rec) -> set[str]:
+    names = {"x"}
+    names.update(rec.parent_modules())
+    return names
+''',
+}
+
+
+def memo_fixture_selfcheck() -> str:
+    """The expected number of mutated memoised results on the real tree is zero: a positive fixture shows that the lint bites."""
+    import shutil
+    import tempfile
+    from pathlib import Path
+
+    tmp = Path(tempfile.mkdtemp(prefix="pta-c10-memo-fixture-"))
+    try:
+        for rel, text in MEMO_FIXTURE.items():
+            (tmp / rel).parent.mkdir(parents=True, exist_ok=True)
+            (tmp / rel).write_text(text)
+        for d in ("src/pytestarch", "src/pytestarch/eval_structure", "src/pytestarch/eval_structure_generation"):
+            (tmp / d / "__init__.py").write_text("")
+        fx = Repo(tmp)
+        memo, bad = memo_alias_mutations(fx, lambda f: f.module.name.startswith(SCAN_PKG))
+        got = sorted({g.name for _m, g, _n in bad})
+        if [m.name for m in memo] != ["parents"] or got != ["mutating"]:
+            raise AnalysisError(f"C10.R5 fixture: mutations of memoised results not classified as expected: memoised {[m.name for m in memo]}, mutated in {got}")
+        return "embedded fixture: the in-place change of an aliased memoised list is found, the change of a copy and of a fresh set filled from it are not"
+    finally:
+        shutil.rmtree(tmp, ignore_errors=True)
+
+
+def run_r5_memo(repo: Repo, res: Result) -> None:
+    memo, bad = memo_alias_mutations(repo, lambda f: f.module.name.startswith(SCAN_PKG))
+    seen = set()
+    for m, g, n_ in bad:
+        k_ = repo.key(g, stmt_of(n_) or n_)
+        if k_ in seen:
+            continue
+        seen.add(k_)
+        res.add("C10.R5", k_, False, f"`{header(stmt_of(n_) or n_)}` in {g.qualname} changes in place a value that is the result of the memoised {m.qualname} ({', '.join(sorted(set(m.decorators) & MEMO_DECORATORS))}): that object is shared by every caller and every later scan, so what a scan with externals included does to it (the calculator only runs then) changes what later scans - of any configuration - compute from it for internal modules", where(g, n_), kind="effect")
+    res.add("C10.R5", "src/pytestarch/eval_structure_generation::results of memoised functions are not changed in place", not bad, (f"{len(memo)} memoised function(s) ({', '.join(m.qualname for m in memo)}); {'a scan function mutates a value aliasing a result' if bad else 'no scan function mutates a value aliasing their results'}; " if memo else "no memoised function in the repository; ") + memo_fixture_selfcheck(), nontrivial=bool(memo), kind="effect")
+
+
 # --------------------------------------------------------------------------- run
 
 
@@ -1023,4 +1235,5 @@ def run(repo: Repo) -> Result:
     for w in ws:
         res.add("C10.R5", repo.key(w.fi, stmt_of(w.node)), False, f"`{header(stmt_of(w.node))}` keeps {w.root_kind} state `{w.root}.{w.field}` in the scan pipeline: verdicts about externals computed for one option set are served to the next scan", where(w.fi, w.node), kind="effect")
     res.add("C10.R5", "src/pytestarch/eval_structure_generation::no shared state", not ws, "no function of the scan pipeline writes class-level or module-level state", kind="effect")
+    run_r5_memo(repo, res)
     return res
